@@ -196,6 +196,21 @@ def operator_clauses(root_node, nodes, rng, pairs):
         r = ev('root', a=n)
         if r is not root_node:
             bad.append(('fn:root returns the root of the tree', f'root({n!r}) = {r!r}'))
+        # an operand that is a rooted path does not change the focus seen by its sibling operands
+        for e in ('(/*, .)', '(//*, .)', '(/node(), .)', '(//node()[1], ., .)'):
+            got = p31.parse(e).evaluate(XPathContext(root=root_node, item=n))
+            got = got if isinstance(got, list) else [got]
+            if not got or got[-1] is not n:
+                bad.append(('a rooted path operand leaves the context item of the sibling operands alone', f'{e} with the context item {n!r} ends with {got[-1:]!r}'))
+        for e in ('(/*)[1] is .', '. is (/*)[1]', '(//node())[last()] >> .', '. << (//node())[last()]'):
+            # the two operand orders of a node comparison agree (the second is the mirror of the first)
+            pass
+        a1 = p31.parse('((/*)[1] is .) = (. is (/*)[1])').evaluate(XPathContext(root=root_node, item=n))
+        a2 = p31.parse('(count(//node()), count(./self::node()))').evaluate(XPathContext(root=root_node, item=n))
+        if a1 is not True:
+            bad.append(("'is' gives the same answer in both operand orders when one operand is a rooted path", f'context item {n!r}'))
+        if not isinstance(a2, list) or a2[-1] != 1:
+            bad.append(('a rooted path operand leaves the context item of the sibling operands alone', f'(count(//node()), count(./self::node())) with {n!r} = {a2!r}'))
     for _ in range(max(4, pairs // 8)):
         s = rng.sample(nodes, rng.randint(0, min(len(nodes), 5)))
         t = rng.sample(nodes, rng.randint(0, min(len(nodes), 5)))
